@@ -29,6 +29,8 @@ struct Raw
     struct StorageProperties properties;
     struct file file;
     size_t offset;
+    /// non-zero while `file` refers to a file opened by raw_start()
+    int is_open;
 };
 
 static enum DeviceState
@@ -85,6 +87,7 @@ raw_start(struct Storage* self_)
       &self->file, self->properties.uri.str, self->properties.uri.nbytes));
     // every acquisition starts at the beginning of its own file
     self->offset = 0;
+    self->is_open = 1;
     LOG("RAW: Frame header size %d bytes", (int)sizeof(struct VideoFrame));
     return DeviceState_Running;
 Error:
@@ -95,7 +98,12 @@ static enum DeviceState
 raw_stop(struct Storage* self_)
 {
     struct Raw* self = containerof(self_, struct Raw, writer);
-    file_close(&self->file);
+    // stop is also reached from destroy and after a failed append: only
+    // close a descriptor this device actually holds
+    if (self->is_open) {
+        file_close(&self->file);
+        self->is_open = 0;
+    }
     return DeviceState_Armed;
 }
 
